@@ -20,6 +20,7 @@ type actRec struct {
 	atMs       int64
 	round      string
 	evKey      string // request the hand engine was at when the call was made ("?" unknown)
+	pending    bool   // interleaved call still in flight
 }
 
 type topup struct {
@@ -56,6 +57,7 @@ type handRec struct {
 	settledMs        int64
 	settledSeq       int64
 	actions          []actRec
+	actionsP         []*actRec // calls made non-atomically (pending while in flight)
 	phase            *phaseRec
 	lastEvent        string
 	eventsSeen       int
@@ -1351,6 +1353,11 @@ func (m *tableMon) collectAnswers(h *handRec, ph *phaseRec) {
 		want = "pay"
 	}
 	key := ph.event + "/" + ph.round
+	for _, a := range h.actionsP {
+		if a.action == want && (a.pending || (a.ok && a.atMs >= ph.from)) {
+			ph.maybe[a.id] = true
+		}
+	}
 	for _, a := range h.actions {
 		if !a.ok || a.action != want {
 			continue
